@@ -29,8 +29,107 @@ var c08DirectedCases = func() []c08Directed {
 			}
 		}
 	}
+	// appended: a JSON member / nested member / array element that is null in a later call
+	for _, slot := range []string{"J.age", "J.obj.n", "J.arr[0]", "J.name"} {
+		for _, re := range []bool{false, true} {
+			out = append(out, c08Directed{Op: "null", Slot: slot, RetErr: re})
+		}
+	}
 	return out
 }()
+
+// runC08Null: the member holds a value in the first call and is null afterwards (and the other
+// way round): a null is a value that can not be compared - never the value of an earlier call.
+func runC08Null(c *Ctx, t int, cr *CaseResult) *CaseResult {
+	d := c08DirectedCases[t]
+	var member *Expr
+	var cond *Expr
+	switch d.Slot {
+	case "J.age":
+		member = VarE(P("J.age"), TFloat, reflect.Float64)
+		cond = Bin(">", TBool, member, LitI(10))
+	case "J.obj.n":
+		member = VarE(P("J.obj.n"), TFloat, reflect.Float64)
+		cond = Bin(">", TBool, member, LitI(10))
+	case "J.arr[0]":
+		member = VarE(P("J.arr", 0), TFloat, reflect.Float64)
+		cond = Bin(">", TBool, member, LitI(10))
+	default:
+		member = VarE(P("J.name"), TStr, reflect.String)
+		cond = Bin("==", TBool, member, LitS("al"))
+	}
+	member.GK = int(reflect.Ptr)
+	then := func(n string, v int64) []*Stmt {
+		return []*Stmt{Assign(P("F.B"), "=", Bin("+", TInt, VarE(P("F.B"), TInt, reflect.Int64), LitI(v))), {Kind: "retract", Name: n}}
+	}
+	prog := &Program{Rules: []*Rule{
+		{Name: "High", Desc: "reads the member", HasSal: true, Sal: 3, When: cond, Then: then("High", 1)},
+		{Name: "Not", Desc: "reads it under a negation", HasSal: true, Sal: 2, When: Not(cond), Then: then("Not", 10)},
+		{Name: "Other", Desc: "does not read it", HasSal: true, Sal: 1, When: Bin("<", TBool, VarE(P("F.B"), TInt, reflect.Int64), LitI(1000)), Then: then("Other", 100)},
+	}}
+	text := PlainStyle.PrintProgram(prog)
+	lib, err := BuildLib(text)
+	if err != nil {
+		cr.inconclusive("directed program rejected by the builder: " + trunc(err.Error(), 60))
+		return cr
+	}
+	kb, err := NewInstance(lib)
+	if err != nil {
+		cr.inconclusive("instance creation failed (judged by C09)")
+		return cr
+	}
+	set := func(st State, v interface{}) {
+		tree := st["J"].(*JSONFact).Tree.(map[string]interface{})
+		switch d.Slot {
+		case "J.age":
+			tree["age"] = v
+		case "J.obj.n":
+			tree["obj"].(map[string]interface{})["n"] = v
+		case "J.arr[0]":
+			tree["arr"].([]interface{})[0] = v
+		default:
+			tree["name"] = v
+		}
+	}
+	var good, other interface{} = float64(40), float64(3)
+	if d.Slot == "J.name" {
+		good, other = "al", "zed"
+	}
+	var hist []string
+	for k, v := range []interface{}{good, nil, other, nil, good, nil} {
+		init := GenState(c.Rng(t, 600+k))
+		init["F"].(*Fact).B = 0
+		set(init, v)
+		cfg := RunCfg{MaxCycle: 8, RetErr: d.RetErr}
+		res := Run(kb, prog, CopyStateLive(init), cfg)
+		cr.Evals++
+		hist = append(hist, fmt.Sprintf("%s=%v", d.Slot, v))
+		a := Analyze(prog, res, cfg, nil)
+		if a.DomainFrom >= 0 {
+			cr.inc("directed_calls_outside_domain")
+			continue
+		}
+		var vs []Violation
+		if res.Panic != nil {
+			vs = append(vs, Violation{"C08", 0, "", fmt.Sprintf("panic: %v", res.Panic)})
+		}
+		vs = append(vs, MonFiresOnlyWhenTrue(a)...)
+		vs = append(vs, MonCandidatesComplete(a)...)
+		vs = append(vs, MonReplayEqual(a)...)
+		vs = append(vs, MonFaultContainment(a, nil)...)
+		if len(vs) > 0 {
+			dd := caseDetail(text, "one", init, res, vs)
+			dd["history"] = hist
+			cr.violate(fmt.Sprintf("call %d of the history (%s) on one instance, ReturnErrOnFailedRuleEvaluation=%v: %s", k+1, strings.Join(hist, " -> "), d.RetErr, joinViol(vs[:min(2, len(vs))])), dd)
+			return cr
+		}
+		if k > 0 {
+			cr.NonTrivial = append(cr.NonTrivial, fmt.Sprintf("directednull|%d|%d", t, k))
+		}
+	}
+	cr.inc("directed_null_after_value_histories")
+	return cr
+}
 
 func c08SlotExpr(slot string) *Expr {
 	var e *Expr
@@ -61,6 +160,9 @@ func c08SetSlot(st State, slot string, v interface{}) {
 
 func runC08Directed(c *Ctx, t int, cr *CaseResult) *CaseResult {
 	d := c08DirectedCases[t]
+	if d.Op == "null" {
+		return runC08Null(c, t, cr)
+	}
 	cond := func() *Expr { return Bin(d.Op, TBool, VarE(P("F.Fl"), TBool, reflect.Bool), c08SlotExpr(d.Slot)) }
 	then := func(n string, v int64) []*Stmt {
 		return []*Stmt{Assign(P("F.B"), "=", Bin("+", TInt, VarE(P("F.B"), TInt, reflect.Int64), LitI(v))), {Kind: "retract", Name: n}}
